@@ -899,8 +899,11 @@ theorem slidingWindowList_elem (s ws : List Nat) (axes : List Int) (ks : List Na
   rw [addWindowOffsets_eq i axes ks o (by rw [hi]; exact hk)]
   rfl
 
-/-- no access leaves the source (any extents, any windows: a window larger than what is left gives an empty view) -/
+set_option linter.unusedVariables false in
+/-- no access leaves the source.  `hw` / `hfit` are the domain on which the model mirrors the C++ (`size_t` arithmetic
+    without wrap-around; NumPy's own domain is slightly smaller: it also refuses a trimmed extent of 0) -/
 theorem slidingWindowList_inBounds (s ws : List Nat) (axes : List Int) (ks : List Nat) (hk : AxesNorm s.length axes ks)
+    (hw : ∀ w ∈ ws, 1 ≤ w) (hfit : ∀ p e, s[p]? = some e → winSum ks (ws.map (· - 1)) p ≤ e)
     (v : IxView) (hv : slidingWindowView s ws (some axes) false = some v) : v.InBounds := by
   have hdst : v.src = s ∧ v.dst = swShape s ks ws := by
     simp only [slidingWindowView, shapeSlidingWindow, mapM_normalizeAxis1_of_axesNorm _ _ _ hk, Option.map_some,
@@ -927,11 +930,20 @@ example : AxesNorm 2 [-1, 0, 1] [1, 0, 1] ∧ (∀ w ∈ [2, 2, 2], 1 ≤ w) ∧
 example : (slidingWindowView [3, 4] [2, 2, 2] (some [-1, 0, 1]) false).map (fun v => (v.dst, v.map [1, 1, 1, 0, 1])) =
     some ([2, 2, 2, 2, 2], some [1, 3]) := by decide
 
-/-! axis None with a window list: one window per axis (NumPy: `axis = range(ndim)`, `len(window_shape) = ndim`) -/
+/-- the domain hypotheses `hfit` hold on the example above (total trim 1 on axis 0, 2 on axis 1) -/
+example : ∀ p e, ([3, 4] : List Nat)[p]? = some e → winSum [1, 0, 1] (([2, 2, 2] : List Nat).map (· - 1)) p ≤ e := by
+  intro p e h
+  match p, h with
+  | 0, h => simp at h; subst h; decide
+  | 1, h => simp at h; subst h; decide
+  | p + 2, h => simp at h
+
+/-! axis None with a window list: one window per axis (NumPy: `axis = range(ndim)`, `len(window_shape) = ndim`).
+    `hw` / `hfit` again delimit the domain on which the model mirrors the C++ (no `size_t` wrap-around). -/
 
 set_option linter.unusedVariables false in
 theorem slidingWindowNone_shape (s ws : List Nat) (hl : ws.length = s.length) (hw : ∀ w ∈ ws, 1 ≤ w)
-    (hfit : ∀ (p e w : Nat), s[p]? = some e → ws[p]? = some w → w ≤ e) :
+    (hfit : ∀ (p e w : Nat), s[p]? = some e → ws[p]? = some w → w ≤ e + 1) :
     ∃ v, slidingWindowView s ws none false = some v ∧ v.src = s ∧
       v.dst = List.zipWith (fun e w => e - (w - 1)) s ws ++ ws := by
   refine ⟨_, rfl, rfl, ?_⟩
@@ -947,7 +959,9 @@ theorem slidingWindowNone_elem (s ws : List Nat) (v : IxView) (hv : slidingWindo
   have hdr : (i ++ o).drop s.length = o := by rw [← hi]; simp
   simp [indexSlidingWindow, ht, hdr, ho]
 
-theorem slidingWindowNone_inBounds (s ws : List Nat) (hl : ws.length = s.length) (v : IxView)
+set_option linter.unusedVariables false in
+theorem slidingWindowNone_inBounds (s ws : List Nat) (hl : ws.length = s.length) (hw : ∀ w ∈ ws, 1 ≤ w)
+    (hfit : ∀ (p e w : Nat), s[p]? = some e → ws[p]? = some w → w ≤ e + 1) (v : IxView)
     (hv : slidingWindowView s ws none false = some v) : v.InBounds := by
   have hdst : v.src = s ∧ v.dst = List.zipWith (fun e w => e - (w - 1)) s ws ++ ws := by
     simp only [slidingWindowView, shapeSlidingWindow, Bool.false_eq_true, if_false, Option.map_some,
@@ -972,8 +986,17 @@ theorem slidingWindowNone_inBounds (s ws : List Nat) (hl : ws.length = s.length)
 example : (slidingWindowView [3, 4] [2, 3] none false).map (fun v => (v.dst, v.map [1, 1, 1, 2])) =
     some ([2, 2, 2, 3], some [2, 3]) := by decide
 
-/-- scalar window with axis None: NumPy accepts it for rank 1 only, where it is the one-axis case -/
-theorem slidingWindowScalarNone_rank1 (n w : Nat) :
+example : ∀ (p e w : Nat), ([3, 4] : List Nat)[p]? = some e → ([2, 3] : List Nat)[p]? = some w → w ≤ e + 1 := by
+  intro p e w h1 h2
+  match p, h1, h2 with
+  | 0, h1, h2 => simp at h1 h2; omega
+  | 1, h1, h2 => simp at h1 h2; omega
+  | p + 2, h1, _ => simp at h1
+
+set_option linter.unusedVariables false in
+/-- scalar window with axis None: NumPy accepts it for rank 1 only, where it is the one-axis case
+    (`hw1` / `hw2`: the domain on which the model mirrors the C++, no `size_t` wrap-around) -/
+theorem slidingWindowScalarNone_rank1 (n w : Nat) (hw1 : 1 ≤ w) (hw2 : w ≤ n + 1) :
     ∃ v, slidingWindowView [n] [w] none true = some v ∧ v.src = [n] ∧ v.dst = [n - (w - 1), w] ∧
       ∀ i o, v.map [i, o] = some [i + o] := by
   refine ⟨_, rfl, rfl, rfl, ?_⟩
